@@ -13,9 +13,16 @@
      all_well_typed o          every uuid filter has an operand of the right Go type
      remote_involved cfg o     some requested object has a non-local prefix
      unsafe cfg o              another filter / count<>"none" / limit>=0 / offset<>0 / order / more targets than
-                               MaxItemsPerResponse *)
+                               MaxItemsPerResponse
+   Entry points (model/C20_entry.v):
+     erun ec page k o          the model of Conn.<k>List under the configuration ec = splitter configuration +
+                               Login.LoginCluster: either the generic splitter (EGeneric (run ...)) or, for users on a
+                               cluster that delegates logins to another cluster, the whole request forwarded there
+     e_calls_to / e_errs / e_items / e_updates   the observables of an entry-point outcome (list requests per
+                               backend, error classes, returned items, UserBatchUpdate calls at the local backend) *)
 From Coq Require Import NArith ZArith List String Bool.
-From AV Require Import lib.Str model.C20_model model.C20_run proofs.C20_proofs proofs.C20_plan proofs.C20_main proofs.C20_spec.
+From AV Require Import lib.Str model.C20_model model.C20_entry model.C20_run proofs.C20_proofs proofs.C20_plan proofs.C20_main proofs.C20_spec
+  proofs.C20_entry_proofs.
 Import ListNotations.
 Local Open Scope string_scope.
 
@@ -186,3 +193,92 @@ Theorem C20_model_complete : forall cfg page o ex,
   errs (run cfg page o) = [] /\ complete_b (spec_targets o) ex (merged cfg (run cfg page o)) = true.
 Proof. exact model_complete. Qed.
 Print Assumptions C20_model_complete.
+
+(* ---------- the entry points Conn.<Type>List (conn.go) ---------- *)
+(* UserList hands the whole request to the login cluster exactly when LoginCluster is set, names ANOTHER
+   cluster, and the caller did not ask for bypass_federation ... *)
+Theorem C20_entry_forward_guard : forall ec k o,
+  forwards ec k o = true <->
+  k = KUser /\ ec_login ec <> "" /\ ec_login ec <> cf_local (ec_cfg ec) /\ o_bypass o = false.
+Proof. exact forwards_iff. Qed.
+Print Assumptions C20_entry_forward_guard.
+
+(* ... every other entry point / configuration (all six resource types; users with no LoginCluster or on a
+   cluster that is its own LoginCluster) is the splitter: the same requests reach every backend, the same
+   error classes and items come back, nothing is cached.  All theorems above therefore hold for Conn.<Type>List. *)
+Theorem C20_entry_uses_splitter : forall ec page ok k o,
+  (k <> KUser \/ ec_login ec = "" \/ ec_login ec = cf_local (ec_cfg ec) \/ o_bypass o = true) ->
+  erun ec page k o = EGeneric (run (ec_cfg ec) page o) /\
+  e_errs ec ok (erun ec page k o) = errs (run (ec_cfg ec) page o) /\
+  (forall b, e_calls_to ec o (erun ec page k o) b = calls_to (ec_cfg ec) o (run (ec_cfg ec) page o) b) /\
+  e_items ec (erun ec page k o) = merged (ec_cfg ec) (run (ec_cfg ec) page o) /\
+  e_updates ec (erun ec page k o) = [].
+Proof. exact entry_uses_splitter. Qed.
+Print Assumptions C20_entry_uses_splitter.
+
+(* the forwarded UserList: one list request, to a configured backend (chooseBackend LoginCluster), carrying
+   the caller's options unchanged; its error or its items are what the caller gets *)
+Theorem C20_entry_forwarded : forall ec page ok o, forwards ec KUser o = true ->
+  let b := choose_backend (ec_cfg ec) (ec_login ec) in
+  has_backend (ec_cfg ec) b = true /\
+  (forall b', e_calls_to ec o (erun ec page KUser o) b' = if b' =? b then [o] else []) /\
+  (forall code, page b 0 [] = AErr code -> e_errs ec ok (erun ec page KUser o) = [code]) /\
+  (forall its, page b 0 [] = AItems its -> e_items ec (erun ec page KUser o) = map (fun i => (b, i)) its).
+Proof. exact entry_forwarded. Qed.
+Print Assumptions C20_entry_forwarded.
+
+(* every requested object whose prefix names a configured cluster is asked for at that cluster (whatever
+   the other clusters answer) — for the splitter and for every entry point that uses it *)
+Theorem C20_every_target_asked_at_home : forall cfg page o u,
+  federated o = true -> all_well_typed o = true -> remote_involved cfg o = true -> unsafe cfg o = false ->
+  is_target o u = true -> has_backend cfg (prefix u) = true ->
+  exists rq, In rq (calls_to cfg o (run cfg page o) (prefix u)) /\ In u (batch_of rq).
+Proof. exact asked_home. Qed.
+Print Assumptions C20_every_target_asked_at_home.
+Theorem C20_entry_every_target_asked_at_home : forall ec page k o u,
+  (k <> KUser \/ ec_login ec = "" \/ ec_login ec = cf_local (ec_cfg ec) \/ o_bypass o = true) ->
+  federated o = true -> all_well_typed o = true -> remote_involved (ec_cfg ec) o = true -> unsafe (ec_cfg ec) o = false ->
+  is_target o u = true -> has_backend (ec_cfg ec) (prefix u) = true ->
+  exists rq, In rq (e_calls_to ec o (erun ec page k o) (prefix u)) /\ In u (batch_of rq).
+Proof. exact entry_asked_home. Qed.
+Print Assumptions C20_entry_every_target_asked_at_home.
+Theorem C20_entry_unknown_cluster_fails : forall ec page ok k o u,
+  (k <> KUser \/ ec_login ec = "" \/ ec_login ec = cf_local (ec_cfg ec) \/ o_bypass o = true) ->
+  federated o = true -> all_well_typed o = true -> unsafe (ec_cfg ec) o = false ->
+  is_target o u = true -> has_backend (ec_cfg ec) (prefix u) = false ->
+  In 404%N (e_errs ec ok (erun ec page k o)) /\ e_calls_to ec o (erun ec page k o) (prefix u) = [].
+Proof. exact entry_unknown_cluster_fails. Qed.
+Print Assumptions C20_entry_unknown_cluster_fails.
+Theorem C20_entry_rejects_before_any_call : forall ec page ok k o,
+  (k <> KUser \/ ec_login ec = "" \/ ec_login ec = cf_local (ec_cfg ec) \/ o_bypass o = true) ->
+  federated o = true -> all_well_typed o = true -> remote_involved (ec_cfg ec) o = true -> unsafe (ec_cfg ec) o = true ->
+  e_errs ec ok (erun ec page k o) = [400%N] /\ forall b, e_calls_to ec o (erun ec page k o) b = [].
+Proof. exact entry_rejects_before_any_call. Qed.
+Print Assumptions C20_entry_rejects_before_any_call.
+
+(* the evaluator's clause "asked at home" reflects the Prop-level statement, and the model passes it *)
+Theorem C20_asked_home_b_reflects : forall cfg tg calls,
+  asked_home_b cfg tg calls = true <->
+  (forall u, In u tg -> has_backend cfg (prefix u) = true -> exists rq, In rq (calls (prefix u)) /\ In u (batch_of rq)).
+Proof. exact asked_home_b_iff. Qed.
+Print Assumptions C20_asked_home_b_reflects.
+Theorem C20_model_asked_home : forall cfg page o,
+  federated o = true -> all_well_typed o = true -> remote_involved cfg o = true -> unsafe cfg o = false ->
+  asked_home_b cfg (spec_targets o) (calls_to cfg o (run cfg page o)) = true.
+Proof. exact model_asked_home. Qed.
+Print Assumptions C20_model_asked_home.
+
+(* the request returns: no cluster loop of the model runs out of fuel (with C20_terminates: every outcome of
+   the model is a list or an error after finitely many backend calls), and the evaluator accepts a case,
+   as satisfying the specification or as explained by the model, only if the observed call returned
+   (o_fate = 0; 1 = still not back when the 20 s watchdog expired, 2 = panicked) *)
+Theorem C20_split_never_out_of_fuel : forall cfg page o runs c tr st,
+  run cfg page o = OSplit runs -> In (c, (tr, st)) runs -> st <> CFuel.
+Proof. exact split_never_out_of_fuel. Qed.
+Print Assumptions C20_split_never_out_of_fuel.
+Theorem C20_spec_needs_return : forall c, spec_b c = true -> o_fate c = 0%N.
+Proof. exact spec_needs_return. Qed.
+Print Assumptions C20_spec_needs_return.
+Theorem C20_model_needs_return : forall c, model_b c = true -> o_fate c = 0%N.
+Proof. exact model_needs_return. Qed.
+Print Assumptions C20_model_needs_return.
